@@ -155,7 +155,16 @@ impl Cleanable {
             crate::utils::cold(); // Should never happen
             return;
         };
-        let _ = map.remove(self.key);
+        let action = map.remove(self.key);
+
+        // Don't run the cleaning action while the map is borrowed or while holding a strong pointer to it:
+        // the action may call clean() on another Cleanable of the same Cleaner (which needs to borrow the map),
+        // or it may release the Cleaner itself, whose drop must then run all the remaining actions
+        drop(map);
+        drop(cc);
+
+        // Dropping the action executes it (if it was still registered)
+        drop(action);
     }
 }
 
